@@ -310,6 +310,56 @@ theorem stitch_decreasing (dfs : List TS) (ub : List Int) (oc : Option (List Cha
     stitch dfs Option.none (some ub) oc n = stitch dfs.reverse Option.none (some ub.reverse) oc n := by
   simp [stitch, normalise, h1, h2]
 
+/-! ### the other spellings: lower bounds only, both lists -/
+
+/-- **stitch_source for every spelling of the bounds**: once the bound lists are normalised (`normalise`: lower bounds
+    only ↦ `(lb[i], lb[i+1]]` with the last interval unbounded above; upper bounds only ↦ `(ub[i-1], ub[i]]`; both lists
+    ↦ `(lb[i], ub[i]]`; decreasing lists reversed together with the series), a row appears exactly when its timestamp
+    passes the two tests of piece `i` and belongs to one of the series `i .. i+n-1`; column `j` carries series `i+j` -/
+theorem stitch_source_general (dfs : List TS) (lb ub : Option (List Int)) (oc : Option (List Char)) (n : Nat) (hn : 1 < n)
+    (l u : Bool) (hb : brackets oc = .ok (l, u)) (dfs' : List TS) (lbs ubs : List (Option Int))
+    (hnorm : normalise dfs lb ub = .ok (dfs', lbs, ubs)) (h1 : lbs.length = dfs'.length) (h2 : ubs.length = dfs'.length)
+    (htwo : 2 ≤ dfs'.length) (F : Frame) (hF : stitch dfs lb ub oc n = .ok (some F)) (t : Int) (vs : List (Option Int)) :
+    (t, vs) ∈ F.rows ↔ ∃ i, ∃ hl : i < lbs.length, ∃ hu : i < ubs.length,
+      (∃ s ∈ (dfs'.drop i).take n, t ∈ s.index) ∧
+      lbOk l (optDate lbs[i]) t = true ∧ ubOk u (optDate ubs[i]) t = true ∧
+      vs = padRow F.width (((dfs'.drop i).take n).map (·.get t)) := by
+  have hpl := piecesG_length dfs' lbs ubs n l u h1 h2
+  have hfl := framesOf_length dfs' n
+  rw [stitch_general dfs lb ub oc n l u hb dfs' lbs ubs hnorm h1 h2, assemble_many _ (by omega)] at hF
+  cases hF
+  simp only [List.mem_flatMap, List.mem_map, Prod.mk.injEq]
+  constructor
+  · rintro ⟨f, hf, r, hr, rfl, rfl⟩
+    obtain ⟨i, hi, rfl⟩ := List.mem_iff_getElem.mp hf
+    rw [piecesG_getElem dfs' lbs ubs n l u i hi (by omega) (by omega) (by omega),
+      framesOf_getElem_cols dfs' n hn i (by omega)] at hr
+    simp only [List.mem_filter, inWindow, Bool.and_eq_true] at hr
+    obtain ⟨hmem, hlo, hhi⟩ := hr
+    obtain ⟨hex, hval⟩ := mem_concatCols.mp hmem
+    exact ⟨i, by omega, by omega, hex, hlo, hhi, by rw [hval]⟩
+  · rintro ⟨i, hl, hu, hex, hlo, hhi, rfl⟩
+    have hi : i < (piecesG dfs' lbs ubs n l u).length := by omega
+    refine ⟨(piecesG dfs' lbs ubs n l u)[i], List.getElem_mem hi, (t, ((dfs'.drop i).take n).map (·.get t)), ?_, rfl, rfl⟩
+    rw [piecesG_getElem dfs' lbs ubs n l u i hi (by omega) hl hu, framesOf_getElem_cols dfs' n hn i (by omega)]
+    simp only [List.mem_filter, inWindow, Bool.and_eq_true]
+    exact ⟨mem_concatCols.mpr ⟨hex, rfl⟩, hlo, hhi⟩
+
+/-- lower bounds only: piece `i` is `(lb[i], lb[i+1]]`, the last one unbounded above -/
+theorem normalise_lb_only (dfs : List TS) (lb : List Int) (h : nonDecreasing lb = true) :
+    normalise dfs (some lb) Option.none = .ok (dfs, lb.map some, (lb.drop 1).map some ++ [Option.none]) :=
+  normalise_lb dfs lb h
+
+/-- both lists: piece `i` is `(lb[i], ub[i]]`; lists running in opposite directions are rejected -/
+theorem normalise_both_lists (dfs : List TS) (lb ub : List Int) (h1 : nonDecreasing lb = true) (h2 : nonDecreasing ub = true) :
+    normalise dfs (some lb) (some ub) = .ok (dfs, lb.map some, ub.map some) := normalise_both dfs lb ub h1 h2
+
+theorem normalise_rejects_mixed (dfs : List TS) (lb ub : List Int) (h : nonDecreasing ub ≠ nonDecreasing lb) :
+    normalise dfs (some lb) (some ub) = .error .value := normalise_mixed dfs lb ub h
+
+example : normalise [[(0, some 1)], [(5, some 2)]] (some [1, 4]) (some [3, 9]) =
+    .ok ([[(0, some 1)], [(5, some 2)]], [some 1, some 4], [some 3, some 9]) := rfl
+
 /-! ### df_unslice -/
 
 /-- the first half of the inverse - cutting the stitched frame again at the bounds with `'(]'`, as `df_unslice` does,
